@@ -160,6 +160,11 @@ def get_all_rules(rules_path=None, match_mode='first_match'):
 
     user_rules_with_source = []
     if rules_path:
+        # The caller names a rules file: if it is not there (any more), say so
+        # instead of quietly classifying without rules
+        if not os.path.exists(rules_path):
+            raise RulesLoadError(f"Error loading rules file {rules_path}: file not found")
+
         # Check if it's the new .rules format
         if rules_path.endswith('.rules'):
             try:
